@@ -255,6 +255,10 @@ func (g *fnGen) doCallWithArgs(st *state, cc *ssa.CallCommon, instr ssa.Instruct
 	}
 	g.runHooks(st, "at", text, ord, hookNames, instr)
 
+	if strings.HasPrefix(calleeName, "(*sync.") && strings.HasSuffix(calleeName, ").Unlock") {
+		// (a read section cannot write guarded state — guard-write obligations — so only write releases re-establish the invariant)
+		g.lockReleased(st, cc, site)
+	}
 	pre := st.clone()
 	var res []string
 	if ct != nil {
@@ -863,6 +867,49 @@ func (g *fnGen) lockAcquired(st *state, cc *ssa.CallCommon) {
 			}
 		}
 	}
+	for _, li := range g.lockInvsFor(n, muName) {
+		t, err := g.evalBool(li.E, &evalEnv{g: g, cur: st, old: st, mode: "callee", names: map[string]binding{"self": {owner, types.NewPointer(structT)}}, pkg: n.Obj().Pkg()})
+		if err != nil {
+			g.stale = append(g.stale, fmt.Sprintf("lockinv %s.%s: %v", li.Struct, li.Mutex, err))
+			continue
+		}
+		g.assume(st, t)
+	}
 	st.lockSnap = st.clone()
 	g.assumptions["state guarded by a mutex is havocked at every acquisition of that mutex (other goroutines may have changed it); atlock(e) names its value at the acquisition"] = true
+}
+
+func (g *fnGen) lockInvsFor(n *types.Named, mu string) []*LockInv {
+	var out []*LockInv
+	for _, li := range g.P.cs.LockInvs {
+		if n.Obj().Pkg() != nil && li.PkgPath == n.Obj().Pkg().Path() && li.Struct == n.Obj().Name() && li.Mutex == mu {
+			out = append(out, li)
+		}
+	}
+	return out
+}
+
+// lockReleased: before a mutex is released its lock invariant must hold again.
+func (g *fnGen) lockReleased(st *state, cc *ssa.CallCommon, site string) {
+	if len(cc.Args) == 0 {
+		return
+	}
+	fa, ok := cc.Args[0].(*ssa.FieldAddr)
+	if !ok {
+		return
+	}
+	structT := deref(fa.X.Type())
+	n, ok := structT.(*types.Named)
+	if !ok || n.Obj().Pkg() == nil {
+		return
+	}
+	muName := structT.Underlying().(*types.Struct).Field(fa.Field).Name()
+	owner := g.val(st, fa.X)
+	for i, li := range g.lockInvsFor(n, muName) {
+		t, err := g.evalBool(li.E, &evalEnv{g: g, cur: st, old: st, mode: "callee", names: map[string]binding{"self": {owner, types.NewPointer(structT)}}, pkg: n.Obj().Pkg()})
+		if err != nil {
+			continue
+		}
+		g.oblige(st, "lockinv", fmt.Sprintf("%s:%s.%s#%d", site, li.Struct, li.Mutex, i+1), cc.Pos(), "", t, "lock invariant holds when the mutex is released: "+li.Src)
+	}
 }
